@@ -204,8 +204,19 @@ def partialLoop (mk : Opts → Path → Viol → FieldErr) (own : Path → List 
   | [], acc => { fields := acc, truncated := false }
   | p :: rest, acc =>
     let acc' := acc ++ (own p).map (mk o p)
-    if o.maxErrors > 0 ∧ acc'.length ≥ o.maxErrors then { fields := acc', truncated := true }
+    -- after the `fix:` commit for K05l: `result.Fields = result.Fields[:cfg.maxErrors]` (one leaf may have
+    -- contributed several errors, e.g. a `dive` rule failing on several elements)
+    if o.maxErrors > 0 ∧ acc'.length ≥ o.maxErrors then { fields := acc'.take o.maxErrors, truncated := true }
     else partialLoop mk own o rest acc'
+
+/-- as shipped (K05l): all errors of the leaf that reaches the maximum stay in the list -/
+def partialLoopK05l (mk : Opts → Path → Viol → FieldErr) (own : Path → List Viol) (o : Opts) :
+    List Path → List FieldErr → Result
+  | [], acc => { fields := acc, truncated := false }
+  | p :: rest, acc =>
+    let acc' := acc ++ (own p).map (mk o p)
+    if o.maxErrors > 0 ∧ acc'.length ≥ o.maxErrors then { fields := acc', truncated := true }
+    else partialLoopK05l mk own o rest acc'
 
 /-- the order of `Error.Sort`: by path, then by code -/
 def errLe (a b : FieldErr) : Bool :=
